@@ -11,6 +11,7 @@ import (
 
 	"github.com/gabriel-vasile/mimetype/internal/verifsim/core"
 	"github.com/gabriel-vasile/mimetype/internal/verifsim/inputs"
+	"github.com/gabriel-vasile/mimetype/internal/verifsim/lib"
 	"github.com/gabriel-vasile/mimetype/internal/verifsim/model"
 )
 
@@ -80,6 +81,10 @@ func (c *c06) Plan(seed uint64, tier string, worker, workers, idx int) *Plan {
 	}
 	p.Slots = 4
 	slot := 0
+	if r.Chance(1, 3) {
+		c06Ladder(r, p, g, universe)
+		return p
+	}
 	nt := r.Range(2, 4)
 	budget := 20 // operations per run: keeps the linearizability search tractable
 	for t := 0; t < nt; t++ {
@@ -149,6 +154,65 @@ func (c *c06) Plan(seed uint64, tier string, worker, workers, idx int) *Plan {
 		p.Tasks = append(p.Tasks, ops)
 	}
 	return p
+}
+
+// c06Ladder is a focused plan: one task registers accepting extensions level
+// by level along the detection path of one input (shallow to deep, deep to
+// shallow or shuffled) while others keep detecting exactly that input and
+// looking the new names up; a walk that does not see one tree from top to
+// bottom produces an answer no sequential execution could.
+func c06Ladder(r *core.Rand, p *Plan, g *extGen, universe []inputs.Input) {
+	in := universe[r.Intn(len(universe))]
+	x := lib.Header(in.Bytes(), p.Limit0)
+	path := pathOf(in.Fam)
+	var rungs []Op
+	for _, name := range path {
+		for k, n := 0, r.Range(1, 2); k < n; k++ {
+			rungs = append(rungs, Op{Kind: "extend", Ext: g.accepting(name, x)})
+		}
+	}
+	switch r.Intn(3) {
+	case 0: // shallow to deep
+	case 1: // deep to shallow
+		for i, j := 0, len(rungs)-1; i < j; i, j = i+1, j-1 {
+			rungs[i], rungs[j] = rungs[j], rungs[i]
+		}
+	default:
+		for i := len(rungs) - 1; i > 0; i-- {
+			j := r.Intn(i + 1)
+			rungs[i], rungs[j] = rungs[j], rungs[i]
+		}
+	}
+	if len(rungs) > 7 {
+		rungs = rungs[:7]
+	}
+	p.Tasks = append(p.Tasks, rungs)
+	for t, n := 0, r.Range(1, 2); t < n; t++ {
+		var ops []Op
+		for i, m := 0, r.Range(2, 5); i < m; i++ {
+			op := Op{In: &in}
+			switch e := r.Intn(10); {
+			case e < 6:
+				op.Kind = "detect"
+			case e < 8:
+				op.Kind = "reader"
+				op.Del = randDelivery(r, len(in.Bytes()), 0)
+			case e < 9:
+				op.Kind = "file"
+				op.Del = randDelivery(r, len(in.Bytes()), 0)
+			default:
+				e := g.made[r.Intn(len(g.made))]
+				names := e.Names()
+				op = Op{Kind: "lookup", Name: names[r.Intn(len(names))], Ext: e}
+			}
+			ops = append(ops, op)
+		}
+		p.Tasks = append(p.Tasks, ops)
+	}
+	if r.Chance(1, 3) && len(p.Tasks) < 4 {
+		other := universe[r.Intn(len(universe))]
+		p.Tasks = append(p.Tasks, []Op{{Kind: "detect", In: &other}, {Kind: "lookup", Name: "text/plain"}})
+	}
 }
 
 // --- porcupine model -------------------------------------------------------
